@@ -30,7 +30,11 @@ func stStr(r *ringbuffer.RingBuffer) string {
 	for i, s := range slots {
 		if s != nil {
 			occ++
-			h = (h + (i+1)*s.(int)) % 1000003
+			x, isInt := s.(int)
+			if !isInt {
+				x = 1 // Processor callbacks: occupancy pattern only
+			}
+			h = (h + (i+1)*x) % 1000003
 		}
 	}
 	return fmt.Sprintf("%d %d %s %d %d", ri, wi, corr.B(closed), occ, h)
